@@ -13,6 +13,7 @@ import (
 	"sync"
 	"testing"
 
+	"github.com/jackc/pgx/v5/pgproto3"
 	"pgregory.net/rapid"
 
 	"github.com/cossacklabs/acra/encryptor/base/config"
@@ -127,6 +128,8 @@ type Sel struct {
 	MixedFmt  bool   `json:"mixed_fmt,omitempty"` // extended: one format code per column, alternating, starting with ResultFmt
 	OmitFmt   bool   `json:"omit_fmt,omitempty"`  // extended, text: send no result format codes at all
 	WhereID   *int64 `json:"where_id,omitempty"`
+	Alias     bool   `json:"alias,omitempty"`    // table alias and column aliases
+	ReuseOf   *int   `json:"reuse_of,omitempty"` // extended: bind and execute the statement prepared by that earlier select (same text) again
 }
 
 // SCase is a session case: one table, its rows, who reads, and the statements of the reading session.
@@ -215,6 +218,19 @@ func genSessionCase(t *rapid.T) SCase {
 		if rapid.Bool().Draw(t, label+".byid") {
 			id := rapid.Int64Range(1, int64(nrows)).Draw(t, label+".id")
 			s.WhereID = &id
+		}
+		s.Alias = rapid.IntRange(0, 3).Draw(t, label+".alias") == 0
+		if s.Ext {
+			var earlier []int
+			for j, e := range c.Selects {
+				if e.Ext && e.ReuseOf == nil {
+					earlier = append(earlier, j)
+				}
+			}
+			if len(earlier) > 0 && rapid.IntRange(0, 2).Draw(t, label+".reuse") == 0 {
+				j := rapid.SampledFrom(earlier).Draw(t, label+".reuseof")
+				s.ReuseOf, s.Cols, s.WhereID, s.Alias = &j, c.Selects[j].Cols, c.Selects[j].WhereID, c.Selects[j].Alias
+			}
 		}
 		c.Selects = append(c.Selects, s)
 	}
@@ -495,20 +511,40 @@ func CheckSession(c SCase) *sessResult {
 	defer sR.Close()
 	afterError := false
 	for si, sel := range c.Selects {
+		if sel.ReuseOf != nil && (*sel.ReuseOf < 0 || *sel.ReuseOf >= si || !c.Selects[*sel.ReuseOf].Ext || !sel.Ext) {
+			sel.ReuseOf = nil // (a shrunk case may have lost the statement it referred to)
+		}
+		if sel.ReuseOf != nil {
+			prev := c.Selects[*sel.ReuseOf]
+			sel.Cols, sel.WhereID, sel.Alias = prev.Cols, prev.WhereID, prev.Alias
+		}
 		cols := sel.Cols
-		list := "*"
+		qual, list := "", "*"
+		if sel.Alias {
+			qual = "q."
+			list = "q.*"
+			run.class("select:alias")
+		}
 		if cols == nil {
 			cols = seq(0, len(tb.Cols)-1)
+			run.class("select:star")
 		} else {
 			var n []string
-			for _, ci := range cols {
-				n = append(n, tb.Cols[ci].Name)
+			for k, ci := range cols {
+				name := qual + tb.Cols[ci].Name
+				if sel.Alias && k%2 == 0 {
+					name += fmt.Sprintf(" AS a%d", k)
+				}
+				n = append(n, name)
 			}
 			list = strings.Join(n, ", ")
 		}
 		sql := "SELECT " + list + " FROM " + tb.Name
+		if sel.Alias {
+			sql += " AS q"
+		}
 		if sel.WhereID != nil {
-			sql += fmt.Sprintf(" WHERE id = %d", *sel.WhereID)
+			sql += fmt.Sprintf(" WHERE %sid = %d", qual, *sel.WhereID)
 		}
 		var rep *pgsess.Reply
 		fmts := make([]int16, len(cols)) // result format of each column
@@ -531,8 +567,33 @@ func CheckSession(c SCase) *sessResult {
 				codes = []int16{}
 				run.class("format-codes:none")
 			}
-			rep, err = sR.Extended(pgsess.Ext{SQL: sql, StmtName: fmt.Sprintf("c19s%d", si), ResultFormats: codes,
-				DescribeStmt: sel.Describe == "S", DescribePort: sel.Describe != "S"})
+			e := pgsess.Ext{SQL: sql, StmtName: fmt.Sprintf("c19s%d", si), ResultFormats: codes,
+				DescribeStmt: sel.Describe == "S", DescribePort: sel.Describe != "S"}
+			var described *pgsess.Reply
+			if sel.ReuseOf != nil {
+				e.StmtName, e.SkipParse = fmt.Sprintf("c19s%d", *sel.ReuseOf), true
+				run.class("prepared-statement:executed-again/describe-" + sel.Describe)
+				if e.DescribeStmt {
+					// describe the prepared statement in a request cycle of its own (as libpq's PQdescribePrepared does),
+					// then bind and execute it: sent in one batch with the Bind, the proxy could see the Bind before or
+					// after the database's answer to the Describe, and acra's randomness must not decide a verdict
+					e.DescribeStmt = false
+					msg, _ := (&pgproto3.Describe{ObjectType: 'S', Name: e.StmtName}).Encode(nil)
+					msg, _ = (&pgproto3.Sync{}).Encode(msg)
+					if err = sR.SendRaw(msg); err == nil {
+						described, err = sR.Collect()
+					}
+				}
+			}
+			if err == nil {
+				rep, err = sR.Extended(e)
+			}
+			if err == nil && described != nil {
+				if len(described.Errors) > 0 {
+					run.add("unexpected-error:describe-statement", "Describe of prepared statement %s was answered with %q", e.StmtName, described.Errors)
+				}
+				rep.Fields, rep.HaveFields = described.Fields, described.HaveFields
+			}
 		} else {
 			rep, err = sR.Simple(sql)
 		}
